@@ -332,7 +332,15 @@ def r3_read(ctx, repo, cls):
     # problem definition: written and read back
     cs = cls.methods.get("_create_structure")
     wrote = text(cs) if cs else ""
-    okw = ".problem.name" in wrote and ".problem.description" in wrote and "json.dumps(parameter)" in wrote and "json.dumps(cost)" in wrote
+
+    def dumps_each(seq_suffix):
+        # for X in <self>.problem.<seq>: ... json.dumps(X) ...
+        for lp_ in (stmts_of(cs) if cs else []):
+            if isinstance(lp_, ast.For) and isinstance(lp_.target, ast.Name) and (access_path(lp_.iter) or "").endswith(".problem." + seq_suffix):
+                if any(access_path(c_.func) == "json.dumps" and c_.args and access_path(c_.args[0]) == lp_.target.id for c_ in calls_in(lp_)):
+                    return True
+        return False
+    okw = ".problem.name" in wrote and ".problem.description" in wrote and dumps_each("parameters") and dumps_each("costs")
     rd = text(fn)
     okr = ".problem.name = " in rd and ".problem.parameters.append(" in rd and ".problem.costs.append(" in rd
     ctx.check3(True if (okw and okr) else None, "R3", "SqliteDataStore(problem definition)", where(mod, cs or fn), "name/description/parameters/costs written by _create_structure and restored by read_from_datastore",
